@@ -398,6 +398,16 @@ def opLoadDoc (j : Json) : R Json := do
   | .error e => pure (jO [("error", jS (mErrName e))])
   | .ok s => pure (jO [("loaded", obsM L s), ("resaved", docToJson (Ser.toDoc L s))])
 
+
+/-- C06: the generated classes -/
+def opClasses (j : Json) : R Json := do
+  let L ← parseLang (← jget j "lang")
+  let on (o : Option Nat) : Json := match o with | some n => jN n | none => Json.null
+  pure <| jO [("assets", jsonOfList (fun (a : AssetDecl) => Json.arr #[jS a.name,
+                 jsonOfList (fun (d : String × String) => Json.arr #[jS d.1, jS d.2]) (MS.defensesOf L a.name)]) L.assets),
+              ("assocs", jsonOfList (fun (c : MS.AssocClass) => Json.arr #[jS c.cls, jS c.lf, jS c.ltype, on c.lmax,
+                 jS c.rf, jS c.rtype, on c.rmax]) (MS.assocClasses L))]
+
 def dispatch (j : Json) : R Json := do
   let op ← jfield jstr j "op"
   match op with
@@ -407,6 +417,7 @@ def dispatch (j : Json) : R Json := do
   | "gen" => opGen j
   | "eval" => opEval j
   | "model_hist" => opModelHist j
+  | "classes" => opClasses j
   | "ser_model" => opSerModel j
   | "load_doc" => opLoadDoc j
   | _ => throw "bad-op"
